@@ -173,3 +173,399 @@ def progOp (op ty : String) (args : List String) : Option OpEval :=
   | _, _ => none
 
 end StatsCI.Driver
+
+namespace StatsCI.Driver
+open StatsCI
+
+/-! ### C09: the stack machine over every statistics state -/
+
+/-- per-state-type operations of the interpreter -/
+structure AccOps (S : Type) where
+  obs : Nat
+  new : S
+  append : S → List String → Option S
+  merge : S → S → S
+  /-- critical values a query of this state needs -/
+  needs : Confidence Float → S → List (CritReq Float)
+  /-- query output; the `Float` is the rounding allowance (absolute, on sums) granted by the caller -/
+  query : Crit Float → Confidence Float → S → List Tok
+
+structure PEnt (S : Type) where
+  st : S
+  data : List String   -- observation tokens delivered, in order
+  steps : Nat
+  rdepth : Nat
+
+def chunksOf (k : Nat) (xs : List String) : List (List String) :=
+  if k == 0 then [] else
+  let rec go (fuel : Nat) (xs : List String) (acc : List (List String)) : List (List String) :=
+    match fuel, xs with
+    | 0, _ => acc.reverse
+    | _, [] => acc.reverse
+    | f + 1, xs => go f (xs.drop k) (xs.take k :: acc)
+  go (xs.length + 1) xs []
+
+def feed {S : Type} (ops : AccOps S) (s : S) (obs : List String) : Option S :=
+  (chunksOf ops.obs obs).foldlM (fun s o => ops.append s o) s
+
+structure PRun (S : Type) where
+  stack : List (PEnt S)
+  queried : List (PEnt S)   -- state at each query, in order
+
+partial def pInterp {S : Type} (ops : AccOps S) (toks : List String) (st : PRun S) : Option (PRun S) :=
+  match toks with
+  | [] => some st
+  | "E" :: rest => pInterp ops rest { st with stack := ⟨ops.new, [], 0, 0⟩ :: st.stack }
+  | "a" :: rest => do
+      let obs := rest.take ops.obs
+      match st.stack with
+      | e :: es =>
+        let s ← ops.append e.st obs
+        pInterp ops (rest.drop ops.obs) { st with stack := ⟨s, e.data ++ obs, e.steps + 1, e.rdepth⟩ :: es }
+      | [] => none
+  | "x" :: n :: rest => do
+      let n ← parseNat? n
+      let obs := rest.take (n * ops.obs)
+      match st.stack with
+      | e :: es =>
+        let s ← feed ops e.st obs
+        pInterp ops (rest.drop (n * ops.obs)) { st with stack := ⟨s, e.data ++ obs, e.steps + n, e.rdepth⟩ :: es }
+      | [] => none
+  | "f" :: n :: rest => do
+      let n ← parseNat? n
+      let obs := rest.take (n * ops.obs)
+      let s ← feed ops ops.new obs
+      pInterp ops (rest.drop (n * ops.obs)) { st with stack := ⟨s, obs, n, 0⟩ :: st.stack }
+  | "d" :: rest =>
+      match st.stack with
+      | e :: es => pInterp ops rest { st with stack := e :: e :: es }
+      | [] => none
+  | "m" :: rest | "p" :: rest =>
+      match st.stack with
+      | r :: l :: es =>
+        pInterp ops rest { st with stack :=
+          ⟨ops.merge l.st r.st, l.data ++ r.data, l.steps + r.steps + 2, Nat.max l.rdepth (r.rdepth + 1)⟩ :: es }
+      | _ => none
+  | "q" :: rest =>
+      match st.stack with
+      | e :: _ => pInterp ops rest { st with queried := st.queried ++ [e] }
+      | [] => none
+  | _ => none
+
+/-! tolerances granted to "the same up to rounding error" -/
+
+/-- rounding allowances for statistics built from two compensated sums of `ys` accumulated along
+    a history with the given `steps` / `rdepth` (closed form of `C08.program_closed`, both histories) -/
+structure Allow where
+  mean : Float
+  sd : Float
+  n : Nat
+  meanV : Float
+  sdV : Float
+
+def allowOf {F : Type} [FloatLike F] (ys : List Float) (steps rdepth : Nat) : Allow :=
+  let u := FloatLike.u F
+  match exactStats ys with
+  | none => ⟨1.0 / 0.0, 1.0 / 0.0, ys.length, 0.0, 0.0⟩
+  | some e =>
+    let n := Float.ofNat e.n
+    let c := (12.0 + 10.0 * Float.ofNat (rdepth + 1)) * u + 12.0 * Float.ofNat (steps + e.n + 2) * u * u
+    let tolSum := 2.0 * c * e.sumAbsF + 16.0 * u * e.sumAbsF
+    let tolSq := 2.0 * c * e.sumSqF + 16.0 * u * e.sumSqF
+    let m := e.mean
+    let tolMean := tolSum / n
+    if e.n < 2 then ⟨tolMean, 1.0 / 0.0, e.n, m, 0.0⟩ else
+    let var := e.variance
+    let tolVar := (tolSq + 2.0 * m.abs * tolSum + 32.0 * u * e.sumSqF) / (n - 1.0)
+    let sd := var.sqrt
+    let tolSd := if var > 0.0 && tolVar < var then tolVar / sd + 8.0 * u * sd else (tolVar + var).sqrt
+    ⟨tolMean, tolSd, e.n, m, sd⟩
+
+/-- positional comparison of two query outputs of the implementation: integers exactly, floats
+    within `tolStat` (statistics group) resp. `tolBound` (interval group) -/
+def cmpQuery (tolStat tolBound : Float) (fin bat : List String) : List String :=
+  let fs := splitBar fin
+  let bs := splitBar bat
+  let isF (t : String) := t.startsWith "x" || t.startsWith "y"
+  let val (t : String) : Float := match parseF64? t with
+    | some x => x
+    | none => match parseF32? t with
+      | some x => x.toFloat
+      | none => 0.0 / 0.0
+  let cmpGroup (tol : Float) (a b : List String) : Bool :=
+    a.length == b.length && (a.zip b).all fun (x, y) =>
+      if isF x && isF y then
+        let vx := val x; let vy := val y
+        (vx.isNaN && vy.isNaN) || vx == vy || (vx - vy).abs ≤ tol
+      else x == y
+  match fs, bs with
+  | s1 :: i1 :: _, s2 :: i2 :: _ =>
+    (if cmpGroup tolStat s1 s2 then [] else [s!"statistics-differ-from-batch(tol {tolStat})"]) ++
+    (if cmpGroup tolBound i1 i2 then [] else [s!"interval-differs-from-batch(tol {tolBound})"])
+  | [i1], [i2] => if cmpGroup tolBound i1 i2 then [] else ["differs-from-batch"]
+  | _, _ => ["malformed-query"]
+
+def decF {F : Type} [FloatLike F] (t : String) : Option F := Codec.dec t
+
+def arithOps {F : Type} [FloatLike F] [Widen F Float] : AccOps (Arith F) where
+  obs := 1
+  new := Arith.empty
+  append := fun s o => match o with
+    | [t] => (decF (F := F) t).map s.append
+    | _ => none
+  merge := Arith.merge
+  needs := fun conf s => match (s.ciPrep : Outcome (Err Float) (Arith.Prep Float)) with
+    | .ok p => [critReq conf p.dof]
+    | _ => []
+  query := fun crit conf s =>
+    let tol := match (s.ciPrep : Outcome (Err Float) (Arith.Prep Float)) with
+      | .ok p => boundTol (F := F) p.mean (crit (critReq conf p.dof)) p.sem
+      | _ => 0.0
+    joinBar [statsToks s, tokOutcome (tokInterval tol) (s.ciMean crit conf : Outcome (Err Float) (Interval F)),
+      [.s (Codec.enc s.sum.sum), .s (Codec.enc s.sum.comp), .s (Codec.enc s.sumSq.sum), .s (Codec.enc s.sumSq.comp)]]
+
+def looseInterval {F : Type} [FloatLike F] (rel : Float) (i : Interval F) : List Tok :=
+  let t (x : F) := FloatLike.tok x (rel * (FloatLike.toF64 x).abs + Float.scaleB 1.0 (-1060))
+  match i with
+  | .twoSided a b => [.s "I2", t a, t b]
+  | .upper a => [.s "IU", t a]
+  | .lower b => [.s "IL", t b]
+
+def outcomeOf {α : Type} (o : Outcome (Err Float) α) (d : α) : α :=
+  match o with
+  | .ok a => a
+  | _ => d
+
+def geoOps {F : Type} [FloatLike F] [Widen F Float] : AccOps (Geometric F) where
+  obs := 1
+  new := Geometric.empty
+  append := fun s o => match o with
+    | [t] => (decF (F := F) t).bind fun x => match (s.append x : Outcome (Err Float) (Geometric F)) with
+        | .ok s' => some s'
+        | _ => none
+    | _ => none
+  merge := Geometric.merge
+  needs := fun conf s => match (s.logs.ciPrep : Outcome (Err Float) (Arith.Prep Float)) with
+    | .ok p => [critReq conf p.dof]
+    | _ => []
+  query := fun crit conf s =>
+    joinBar [wstats s.sampleCount s.mean s.sem,
+      tokOutcome (looseInterval (64.0 * FloatLike.u F)) (s.ciMean crit conf : Outcome (Err Float) (Interval F))]
+
+def harmOps {F : Type} [FloatLike F] [Widen F Float] : AccOps (Harmonic F) where
+  obs := 1
+  new := Harmonic.empty
+  append := fun s o => match o with
+    | [t] => (decF (F := F) t).bind fun x => match (s.append x : Outcome (Err Float) (Harmonic F)) with
+        | .ok s' => some s'
+        | _ => none
+    | _ => none
+  merge := Harmonic.merge
+  needs := fun conf s => match (s.recip.ciPrep : Outcome (Err Float) (Arith.Prep Float)) with
+    | .ok p => [critReq conf.flipped p.dof]
+    | _ => []
+  query := fun crit conf s =>
+    joinBar [wstats s.sampleCount s.mean s.sem,
+      tokOutcome (looseInterval (64.0 * FloatLike.u F)) (s.ciMean crit conf : Outcome (Err Float) (Interval F))]
+
+def pairedOps {F : Type} [FloatLike F] [Widen F Float] : AccOps (Paired F) where
+  obs := 2
+  new := Paired.empty
+  append := fun s o => match o with
+    | [a, b] => do let a ← decF (F := F) a; let b ← decF (F := F) b; pure (s.appendPair a b)
+    | _ => none
+  merge := Paired.merge
+  needs := fun conf s => match (s.stats.ciPrep : Outcome (Err Float) (Arith.Prep Float)) with
+    | .ok p => [critReq conf p.dof]
+    | _ => []
+  query := fun crit conf s =>
+    let tol := match (s.stats.ciPrep : Outcome (Err Float) (Arith.Prep Float)) with
+      | .ok p => boundTol (F := F) p.mean (crit (critReq conf p.dof)) p.sem
+      | _ => 0.0
+    joinBar [wstats s.sampleCount s.mean s.sem,
+      tokOutcome (tokInterval tol) (s.ciMean crit conf : Outcome (Err Float) (Interval F))]
+
+def unpairedOps {F : Type} [FloatLike F] [Widen F Float] : AccOps (Unpaired F) where
+  obs := 2
+  new := Unpaired.empty
+  append := fun s o => match o with
+    | ["A", x] => (decF (F := F) x).map s.appendA
+    | ["B", y] => (decF (F := F) y).map s.appendB
+    | _ => none
+  merge := Unpaired.merge
+  needs := fun conf s => match (s.ciPrep : Outcome (Err Float) (Arith.Prep Float)) with
+    | .ok p => [critReq conf p.dof]
+    | _ => []
+  query := fun crit conf s =>
+    let tol := match (s.ciPrep : Outcome (Err Float) (Arith.Prep Float)) with
+      | .ok p => boundTol (F := F) p.mean (crit (critReq conf p.dof)) p.sem
+      | _ => 0.0
+    joinBar [[.s (toString s.a.count), .s (toString s.b.count), relTok s.a.mean, relTok s.b.mean],
+      tokOutcome (tokInterval tol) (s.ciMean crit conf : Outcome (Err Float) (Interval F))]
+
+def propAccOps : AccOps Proportion.Stats where
+  obs := 1
+  new := Proportion.Stats.empty
+  append := fun s o => match o with
+    | ["T"] => some s.addSuccess
+    | ["F"] => some s.addFailure
+    | _ => none
+  merge := Proportion.Stats.merge
+  needs := fun conf _ => zNeed conf
+  query := fun crit conf s =>
+    joinBar [[.s (toString s.population), .s (toString s.successes)], tokOutcome tokUnitInterval (s.ci crit conf)]
+
+def quantAccOps : AccOps Nat where
+  obs := 1
+  new := 0
+  append := fun s _ => some (s + 1)
+  merge := fun a b => a + b
+  needs := fun conf _ => zNeed conf
+  query := fun crit conf s => tokOutcome tokNatInterval (Quantile.ciIndices crit conf s (0.5 : Float))
+
+/-- inner (transformed) observations of a wrapper, as f64, for the rounding allowance -/
+def innerData {F : Type} [FloatLike F] (kind : String) (data : List String) : List (List Float) :=
+  let f (t : String) : Option F := Codec.dec t
+  let v (x : F) : Float := FloatLike.toF64 x
+  match kind with
+  | "arith" => [data.filterMap fun t => (f t).map v]
+  | "geo" => [data.filterMap fun t => (f t).map fun x => v (Scalar.ln x)]
+  | "harm" => [data.filterMap fun t => (f t).map fun x => v (NumOps.div (NumOps.one : F) x)]
+  | "paired" => [(chunksOf 2 data).filterMap fun
+      | [a, b] => do let a ← f a; let b ← f b; pure (v (NumOps.sub a b))
+      | _ => none]
+  | "unpaired" =>
+      let obs := chunksOf 2 data
+      [obs.filterMap fun | ["A", x] => (f x).map v | _ => none,
+       obs.filterMap fun | ["B", y] => (f y).map v | _ => none]
+  | _ => []
+
+/-- `prog F <kind> conf <program> => q… | B | batch` -/
+def progGeneric {S : Type} {F : Type} [FloatLike F] (ops : AccOps S) (kind : String) (args : List String) :
+    Option OpEval := do
+  let (conf, prog) ← pConf args
+  let r ← pInterp ops prog ⟨[], []⟩
+  let fin ← r.stack.head?
+  let batch ← feed ops ops.new fin.data
+  let states := r.queried.map (·.st) ++ [batch]
+  pure {
+    needs := states.flatMap (ops.needs conf)
+    run := fun crit impl =>
+      let qs := states.map (ops.query crit conf)
+      let nq := r.queried.length
+      let model := joinBar (qs.take nq ++ [[Tok.s "B"]] ++ qs.drop nq)
+      -- oracle: the final state of the history reports the batch result, up to rounding error
+      let groups := impl   -- already split at `|`
+      -- locate the `B` marker
+      let pre := groups.takeWhile (· != ["B"])
+      let post := groups.drop (pre.length + 1)
+      let perQ := if nq == 0 then 1 else pre.length / nq
+      let lastQ := pre.drop (pre.length - perQ)
+      let flat (gs : List (List String)) : List String := " | ".intercalate (gs.map (" ".intercalate ·)) |>.splitOn " "
+      let cs :=
+        if nq == 0 then [] else
+        match kind with
+        | "prop" | "quant" =>
+          if lastQ == post then [] else ["merged-state-is-not-the-component-wise-sum"]
+        | _ =>
+          let inner := innerData (F := F) kind fin.data
+          let als := inner.map fun ys => allowOf (F := F) ys fin.steps fin.rdepth
+          let c := match ops.needs conf batch with
+            | rq :: _ => (crit rq).abs
+            | [] => 0.0
+          let u := FloatLike.u F
+          match als with
+          | [a] =>
+            let n := Float.ofNat a.n
+            let hw := c * a.sdV / n.sqrt
+            let tolB := a.mean + c * a.sd / n.sqrt + 32.0 * u * (a.meanV.abs + hw)
+            let tolS := fmax (a.mean) (a.sd) + 32.0 * u * (a.meanV.abs + a.sdV)
+            let (tolS, tolB) :=
+              match kind with
+              | "geo" =>
+                -- exp amplifies absolute allowances into relative ones
+                let top := (a.meanV + hw).exp
+                ((tolS + 32.0 * u) * top * (1.0 + a.sdV), (tolB + 32.0 * u) * top)
+              | "harm" =>
+                let lowb := fmax (a.meanV.abs - hw) (Float.scaleB 1.0 (-1000))
+                let m2 := 1.0 / (a.meanV * a.meanV)
+                ((tolS * m2 * (1.0 + a.sdV / a.meanV.abs)) + 32.0 * u / a.meanV.abs, tolB / (lowb * lowb) * 2.0 + 32.0 * u / lowb)
+              | _ => (tolS, tolB)
+            cmpQuery tolS tolB (flat (lastQ.take 2)) (flat (post.take 2))
+          | [a, b] =>
+            let na := Float.ofNat a.n; let nb := Float.ofNat b.n
+            let se := (a.sdV * a.sdV / na + b.sdV * b.sdV / nb).sqrt
+            let tolSe := if se > 0.0 then (a.sdV * a.sd / na + b.sdV * b.sd / nb) * 2.0 / se + 16.0 * u * se
+                         else (a.sd * a.sd / na + b.sd * b.sd / nb).sqrt
+            -- the critical values of the two states may differ slightly (different effective dof)
+            let cs := (ops.needs conf fin.st ++ ops.needs conf batch).map fun rq => crit rq
+            let dc := match cs with
+              | [c1, c2] => (c1 - c2).abs
+              | _ => 0.0
+            let tolB := a.mean + b.mean + c * tolSe + dc * se + 64.0 * u * (a.meanV.abs + b.meanV.abs + c * se)
+            cmpQuery (fmax a.mean b.mean + 32.0 * u * (a.meanV.abs + b.meanV.abs)) tolB (flat lastQ) (flat post)
+          | _ => []
+      { model := model, prop := cs } }
+
+/-- `par g conf threads nchunks <chunks…> => query of the reduced state` (any reduction tree) -/
+def parOp (args : List String) : Option OpEval := do
+  let (conf, r) ← pConf args
+  let (_threads, r) ← pNat r
+  let (nchunks, r) ← pNat r
+  let rec chunks (k : Nat) (ts : List String) (acc : List (List Float32)) : Option (List (List Float32)) :=
+    match k with
+    | 0 => some acc.reverse
+    | k + 1 => do
+      let (xs, rest) ← pList (α := Float32) ts
+      chunks k rest (xs :: acc)
+  let cs ← chunks nchunks r []
+  let all := cs.flatten
+  let batch := Arith.fromList all
+  let ops := arithOps (F := Float32)
+  pure {
+    needs := ops.needs conf batch
+    run := fun crit impl =>
+      -- the scheduler picks the tree: the model output is the batch state, compared with the
+      -- allowance of the deepest tree over these chunks
+      let al := allowOf (F := Float32) (all.map Float32.toFloat) (all.length + 2 * nchunks) nchunks
+      let c := match ops.needs conf batch with
+        | rq :: _ => (crit rq).abs
+        | [] => 0.0
+      let n := Float.ofNat al.n
+      let u := FloatLike.u Float32
+      let tolB := al.mean + c * al.sd / n.sqrt + 32.0 * u * (al.meanV.abs + c * al.sdV / n.sqrt)
+      let tolS := fmax al.mean al.sd + 32.0 * u * (al.meanV.abs + al.sdV)
+      let inf : Float := 1.0 / 0.0
+      let statT : List Tok :=
+        if batch.count = 0 then statsToks batch else
+        [.s (toString batch.count), .g batch.mean tolS, .g batch.variance (2.0 * al.sdV * tolS + tolS * tolS + 64.0 * u * al.sdV * al.sdV),
+         .g batch.stdDev tolS, .g batch.sem inf]
+      let ciT := tokOutcome (tokInterval (F := Float32) tolB) (batch.ciMean crit conf : Outcome (Err Float) (Interval Float32))
+      let regs : List Tok := [.g batch.sum.sum inf, .g batch.sum.comp inf, .g batch.sumSq.sum inf, .g batch.sumSq.comp inf]
+      let _ := impl
+      { model := joinBar [statT, ciT, regs] } }
+
+def progOp09 (op ty : String) (args : List String) : Option OpEval :=
+  match op with
+  | "prog" =>
+    match args with
+    | kind :: rest =>
+      match kind, ty with
+      | "arith", "f" => progGeneric (F := Float) (arithOps (F := Float)) kind rest
+      | "arith", "g" => progGeneric (F := Float32) (arithOps (F := Float32)) kind rest
+      | "geo", "f" => progGeneric (F := Float) (geoOps (F := Float)) kind rest
+      | "geo", "g" => progGeneric (F := Float32) (geoOps (F := Float32)) kind rest
+      | "harm", "f" => progGeneric (F := Float) (harmOps (F := Float)) kind rest
+      | "harm", "g" => progGeneric (F := Float32) (harmOps (F := Float32)) kind rest
+      | "paired", "f" => progGeneric (F := Float) (pairedOps (F := Float)) kind rest
+      | "paired", "g" => progGeneric (F := Float32) (pairedOps (F := Float32)) kind rest
+      | "unpaired", "f" => progGeneric (F := Float) (unpairedOps (F := Float)) kind rest
+      | "unpaired", "g" => progGeneric (F := Float32) (unpairedOps (F := Float32)) kind rest
+      | "prop", _ => progGeneric (F := Float) propAccOps kind rest
+      | "quant", _ => progGeneric (F := Float) quantAccOps kind rest
+      | _, _ => none
+    | [] => none
+  | "par" => parOp args
+  | _ => none
+
+end StatsCI.Driver
